@@ -734,6 +734,12 @@ def render_bound(fam, n):
         return "int a %s;\n" % ("1" * (n - 9)), []
     if fam == "desc_string":
         return 'int a "%s";\n' % A(n - 9), []
+    if fam == "escape":
+        b, k, pfx = n % 256, (n // 256) % 2, ["", "L", "u8", "u", "U"][n // 512]
+        body = b"\\" + bytes([b]) + (b"41" if b == 120 else b"")       # \x needs its hex digits
+        if k == 0:
+            return b"int c = " + pfx.encode() + b"'" + body + b"';\n", []
+        return b"const void *s = " + pfx.encode() + b'"' + body + b'";\n', []
     if fam == "guard":
         return GUARDS[n - 1] + "\n", []
     if fam == "margs":
@@ -804,13 +810,14 @@ def part_bounds(ctx, bins, models):
 
     def one(c):
         src, args = render_bound(c["fam"], c["n"])
-        data = src.encode()
+        data = src if isinstance(src, bytes) else src.encode()
         # instrumented frames are ~3x larger: beyond depth 1000 the plain build is the target (stack exhaustion of the
         # sanitized build is an artefact of the instrumentation, not of the compiler)
         deep = c["fam"] in DEPTH_FAMS and c["n"] > 1000
         exe = bins.plain if deep else bins.san
         audit = None
-        if c["class"] in (0, 1) and len(data) < 20000 and not (c["fam"] in DEPTH_FAMS and c["n"] > 100) and "-E" not in args:
+        if c["class"] in (0, 1) and len(data) < 20000 and not (c["fam"] in DEPTH_FAMS and c["n"] > 100) and "-E" not in args \
+                and not (c["fam"] == "escape" and c["n"] // 512 == 2 and (c["n"] // 256) % 2 == 0):   # clang 14 has no u8 character constants
             if c["class"] == 0 or c["fam"].startswith("desc_") or c["fam"] == "margs":
                 audit = audit_class(data, c["class"] == 0)
         obs, sig, err = observe(exe, data, args)
@@ -824,7 +831,7 @@ def part_bounds(ctx, bins, models):
         n += 1
         ctx.count("bounds/%s/%d" % (c["fam"], c["n"]), nontrivial=True)
         case = {"part": "bounds", "family": c["fam"], "n": c["n"], "class": c["class"], "held": c["held"], "args": args, "build": "plain" if deep else "asan+ubsan",
-                "source": data[:300].decode() + ("..." if len(data) > 300 else "")}
+                "source": data[:300].decode("latin-1") + ("..." if len(data) > 300 else "")}
         if obs in ("crash", "hang"):
             ctx.violation(sig, "sanitizer report / abnormal end / timeout on a boundary input of Bounds.tla",
                           dict(case, stderr=err[-1500:]))
@@ -867,6 +874,15 @@ SEEDS = [
     ("fixed-3a3e772-builtin-as-statement", b"int main(void) { __builtin_expect; }\n", []),
     ("fixed-f3e22e6-attr-eof", b"[[foo(", []),
     ("fixed-f3e22e6-gnuattr-eof", b"__attribute__((foo(", []),
+    ("nullptr-in-function", b"int f(void) { nullptr; return 0; }\n", []),
+    ("cast-to-incomplete-enum", b"void f(void) { (enum e)1.5; }\n", []),
+    ("cast-to-incomplete-enum-const", b"int x = (enum e)1;\n", []),
+    ("zero-length-local-array", b"void f(void) { int a[0]; }\n", []),
+    ("zero-size-struct-assign", b"struct S { int a[0]; }; void f(void) { struct S x, y; x = y; }\n", []),
+    ("union-two-designators", b"union U { int a; char b; } u = {.a = 1, .b = 2};\n", []),
+    ("deep-parens-30000", b"int v = " + b"(" * 30000 + b"1" + b")" * 30000 + b";\n", []),
+    ("fixed-51bc936-bitfield-width-sentinel", b"struct S { int : -1ull; int a; } s; int f(void) { return s.a; }\n", []),
+    ("fixed-51bc936-bitfield-width-sentinel-named", b"struct S { int x : -1ull; } s;\n", []),
     # regression inputs of defects repaired by fix: commits in /repo (must stay quiet)
     ("fixed-4ba409c-expandfunc-uaf", b"#define f(a) a\n#define t(a) a\nt(t(f)x)\n", ["-E"]),
     ("fixed-f515711-duplicate-label", b"void f(void) { x: x: ; }\n", []),
@@ -918,13 +934,52 @@ def truncations(files, stride, phase):
     return out
 
 
+SWEEP_BASE = ("struct s { int a : 3 ; char b [ 2 ] ; } ; enum { A = 1 } ; typedef int T ; static T g ( struct s * p , ... ) { "
+              "int i = 0 , * q = & i ; char c = 'x' ; const char * m = \"s\" ; for ( ; i < 2 ; ++ i ) switch ( p -> a ) { case A : "
+              "return sizeof ( T ) ; default : break ; } if ( ! * q ) goto out ; c = ( char ) ( i ? 1.5 : - 2 ) ; out : "
+              "return p -> b [ 1 ] + c + * m ; }").split(" ")
+
+
+def sweep_alphabet():
+    """every keyword and punctuator spelling of /repo/token.c plus a few literal shapes"""
+    src = open(os.path.join(vlib.REPO, "token.c")).read()
+    body = src[src.index("const char *tokstr[]"):]
+    body = body[:body.index("};")]
+    toks = re.findall(r'\[T\w+\]\s*=\s*"((?:[^"\\]|\\.)*)"', body)
+    toks = [t.replace('\\"', '"').replace("\\\\", "\\") for t in toks]
+    return sorted(set(toks)) + ["x", "0", "1.5", "'c'", '"s"', "u8\"s\"", "L'x'", "0x", "1e", "..", "@", "\\", "__builtin_va_list", "__builtin_offsetof", "[[", "]]"]
+
+
+def token_sweep(quick):
+    """Exhaustive single-token perturbation of one compact program: every token replaced by (thorough: also preceded by)
+    every keyword/punctuator/literal shape."""
+    out = []
+    alpha = sweep_alphabet()
+    for i in range(len(SWEEP_BASE)):
+        for a in alpha:
+            if quick and not dsel((i, a), 6):
+                continue
+            t = list(SWEEP_BASE)
+            t[i] = a
+            out.append((" ".join(t).encode() + b"\n", "x86_64-sysv", "c", {"sweep": "replace", "at": i, "by": a}))
+            if not quick:
+                t = list(SWEEP_BASE)
+                t.insert(i, a)
+                out.append((" ".join(t).encode() + b"\n", "x86_64-sysv", "c", {"sweep": "insert", "at": i, "by": a}))
+        t = list(SWEEP_BASE)
+        del t[i]
+        out.append((" ".join(t).encode() + b"\n", "x86_64-sysv", "c", {"sweep": "delete", "at": i}))
+    return out
+
+
 def part_volume(ctx, bins):
     import mutate
     files = mutate.corpus()
     q = ctx.quick
     inputs = []          # (bytes, target, mode, descr, origin)
     for name, src, args in SEEDS:
-        inputs.append((src, "x86_64-sysv", "E" if "-E" in args else "c", {"seed": name}, "seed"))
+        if not name.startswith("deep-"):     # beyond depth 10^3 the plain build is the target (see Bounds)
+            inputs.append((src, "x86_64-sysv", "E" if "-E" in args else "c", {"seed": name}, "seed"))
     for p, targ, mode in files:
         inputs.append((open(p, "rb").read(), targ, mode, {"file": os.path.basename(p)}, "corpus"))
     for src, targ, mode, d in mutate.generate(ctx, 1500 if q else 45000, 2):
@@ -933,6 +988,9 @@ def part_volume(ctx, bins):
         inputs.append((src, targ, mode, d, "MutateByte"))
     for src, targ, mode, d in truncations(files, 4 if q else 1, ctx.seed):
         inputs.append((src, targ, mode, d, "Truncate"))
+    inputs.append((" ".join(SWEEP_BASE).encode() + b"\n", "x86_64-sysv", "c", {"sweep": "base"}, "TokSweep"))
+    for src, targ, mode, d in token_sweep(q):
+        inputs.append((src, targ, mode, d, "TokSweep"))
     # -E and compile mode are different code paths: corpus-derived inputs run in the mode the corpus file is tested in,
     # and a fifth of them also in the other one
     jobs = []
@@ -1066,7 +1124,7 @@ def replay(ctx, path):
         return 1 if got_key and (got_key == key or key.startswith("proc:") and got_key.startswith("proc:")) else 0
     if part == "bounds":
         src, args = render_bound(case["family"], case["n"])
-        data, want = src.encode(), {0: "status 0", 1: "status 1", 2: "status 0 or 1"}[case["class"]]
+        data, want = (src if isinstance(src, bytes) else src.encode()), {0: "status 0", 1: "status 1", 2: "status 0 or 1"}[case["class"]]
         exe = bins.plain if case["build"] == "plain" else bins.san
     elif part == "skip":
         data, args, want, exe = case["source"].encode(), [], {"ok": "status 0", "diag": "status 1", "any": "status 0 or 1"}[case["class"]], bins.san
